@@ -132,7 +132,75 @@ def loops_lm(fn):
     return out
 
 
+def module_state(rep):
+    """No function of maths.py may remember anything between calls in a module-level table:
+    the harmonics and the decomposition are functions of their arguments (for every sequence
+    of calls).  A memo is accepted only if its key names every parameter of the function."""
+    S = rep.sources
+    tree = S.module(MATHS)
+    tables = set()
+    for st in tree.body:
+        if isinstance(st, ast.Assign) and isinstance(st.value, (ast.Dict, ast.List, ast.Set)) \
+                or isinstance(st, ast.Assign) and isinstance(st.value, ast.Call) \
+                and unparse(st.value.func) in ("dict", "list", "set", "collections.defaultdict",
+                                               "defaultdict", "OrderedDict"):
+            tables |= {t.id for t in st.targets if isinstance(t, ast.Name)}
+    n = 0
+    for fn in [x for x in ast.walk(tree) if isinstance(x, ast.FunctionDef)]:
+        n += 1
+        params = {a.arg for a in fn.args.args}
+        locs = {t.id for x in ast.walk(fn) if isinstance(x, ast.Assign) for t in x.targets
+                if isinstance(t, ast.Name)}
+        glob = {g for x in ast.walk(fn) if isinstance(x, ast.Global) for g in x.names}
+        bad = None
+        for x in ast.walk(fn):
+            tgt = None
+            if isinstance(x, (ast.Assign, ast.AugAssign)):
+                for t in (x.targets if isinstance(x, ast.Assign) else [x.target]):
+                    if isinstance(t, ast.Subscript) and isinstance(t.value, ast.Name):
+                        tgt = (t.value.id, t.slice)
+                    elif isinstance(t, ast.Name) and t.id in glob:
+                        tgt = (t.id, None)
+            elif isinstance(x, ast.Call) and isinstance(x.func, ast.Attribute) \
+                    and isinstance(x.func.value, ast.Name) \
+                    and x.func.attr in ("append", "update", "setdefault", "add", "extend",
+                                        "insert", "pop", "clear"):
+                tgt = (x.func.value.id, x.args[0] if x.args else None)
+            if tgt is None:
+                continue
+            nm, keyexpr = tgt
+            if (nm in tables and nm not in locs and nm not in params) or nm in glob:
+                # complete memo key: every parameter appears, by itself, in the key
+                knames = set()
+                if keyexpr is not None:
+                    src = keyexpr
+                    if isinstance(src, ast.Name):
+                        for a in ast.walk(fn):
+                            if isinstance(a, ast.Assign) and unparse(a.targets[0]) == src.id:
+                                src = a.value
+                                break
+                    elts = src.elts if isinstance(src, ast.Tuple) else [src]
+                    knames = {e.id for e in elts if isinstance(e, ast.Name)}
+                if not params or not params <= knames:
+                    bad = (x, nm, sorted(params - knames))
+        if bad:
+            rep.violation("module-state", f"{MATHS}::{fn.name}::{bad[1]}",
+                          f"`{fn.name}` stores into the module-level table `{bad[1]}`; its key "
+                          f"does not determine the stored value (parameters not in the key: "
+                          f"{bad[2]}), so a later call with other arguments gets a stale value",
+                          node=bad[0], file=MATHS)
+        else:
+            rep.ok("module-state", f"{MATHS}::{fn.name}")
+    if n < 10:
+        raise AnalysisError("maths.py: functions not found")
+
+
 def analysis_synthesis(rep):
+    """Decided on normal forms (symexpr): temporaries, operand order and pure straight-line
+    helpers do not matter."""
+    from ..symexpr import SymEval
+    from ..tpoly import P
+    from .. import symdiff
     S = rep.sources
     co = S.function(MATHS, "sYlm_coefficients")
     re_ = S.function(MATHS, "sYlm_reconstruct")
@@ -143,161 +211,215 @@ def analysis_synthesis(rep):
     if len(lc) != 1 or len(lr) != 1:
         raise AnalysisError("sYlm analysis/synthesis: (l, m) loops not found")
     (el1, m1, r1, s1, b1), (el2, m2, r2, s2, b2) = lc[0], lr[0]
+    if sy_params != ["s", "el", "m", "theta", "phi"]:
+        raise AnalysisError("sYlm: parameter list changed: " + str(sy_params))
+    funcs = {f.name: f for f in S.module(MATHS).body if isinstance(f, ast.FunctionDef)}
 
-    def norm(txt, el, m):
-        import re
-        txt = re.sub(rf"\b{re.escape(el)}\b", "L", txt)
-        return re.sub(rf"\b{re.escape(m)}\b", "M", txt)
-    lmax_c, lmax_r = co.args.args[1].arg, re_.args.args[1].arg
-    rep.check(norm(r1, el1, m1).replace(lmax_c, "LMAX") == norm(r2, el2, m2).replace(
-        lmax_r, "LMAX") == "range(LMAX + 1)" and norm(s1, el1, m1) == norm(s2, el2, m2)
-        == "range(-L, L + 1)", "analysis-synthesis", key + "::ranges",
-        f"(l, m) ranges differ or are not 0..lmax, -l..l: {r1}/{s1} vs {r2}/{s2}", node=co)
+    def rng(fn, outer, inner, el):
+        ev = SymEval(funcs, keep=("sYlm",), what=fn.name)
+        env = {a.arg: P.atom(a.arg) for a in fn.args.args}
+        env[el] = P.atom("L")
+        o = ast.parse(outer, mode="eval").body
+        i = ast.parse(inner, mode="eval").body
+        return ([ev.ev(a, env) for a in o.args], [ev.ev(a, env) for a in i.args])
+    lmax_c, lmax_r = P.atom(co.args.args[1].arg), P.atom(re_.args.args[1].arg)
+    L = P.atom("L")
+    oc, ic = rng(co, r1, s1, el1)
+    orr, ir = rng(re_, r2, s2, el2)
+    ok = oc in ([lmax_c + 1], [P.const(0), lmax_c + 1]) and \
+        orr in ([lmax_r + 1], [P.const(0), lmax_r + 1]) and ic == [-L, L + 1] == ir
+    rep.check(ok, "analysis-synthesis", key + "::ranges",
+              f"(l, m) ranges differ or are not 0..lmax, -l..l: {r1}/{s1} vs {r2}/{s2}", node=co)
 
-    def sylm_calls(body):
-        return [n for st in body for n in ast.walk(st) if isinstance(n, ast.Call)
-                and unparse(n.func) == "sYlm"]
-    c1, c2 = sylm_calls(b1), sylm_calls(b2)
-    ok = len(c1) == 1 and len(c2) == 1
-    if ok:
-        a1 = [unparse(a) for a in c1[0].args]
-        a2 = [unparse(a) for a in c2[0].args]
-        p1 = [a.arg for a in co.args.args]
-        p2 = [a.arg for a in re_.args.args]
-        # (s, el, m, theta, phi) by role
-        ok = a1 == [p1[0], el1, m1, p1[3], p1[4]] and a2 == [p2[0], el2, m2, p2[3], p2[4]] \
-            and sy_params == ["s", "el", "m", "theta", "phi"] \
-            and p1[3:5] == ["theta", "phi"] and p2[3:5] == ["theta", "phi"]
-    rep.check(ok, "analysis-synthesis", key + "::sYlm-args",
-              "both must call sYlm(s, el, m, theta, phi) with their own parameters in that "
-              "role order", node=c1[0] if c1 else co)
-    # analysis: alm[el, m] = sum(conj(sYlm) * f * dtheta_weight * dphi)
-    st = [x for x in b1 if isinstance(x, ast.Assign)]
-    ok = False
-    if st and unparse(st[0].targets[0]).replace("(", "").replace(")", "") == f"alm[{el1}, {m1}]":
-        v = st[0].value
-        if isinstance(v, ast.Call) and unparse(v.func) == "np.sum" and len(v.args) == 1:
-            facs = []
-            x = v.args[0]
-            while isinstance(x, ast.BinOp) and isinstance(x.op, ast.Mult):
-                facs.append(unparse(x.right))
-                x = x.left
-            facs.append(unparse(x))
-            p1 = [a.arg for a in co.args.args]
-            want = {f"np.conj({unparse(c1[0])})", p1[2], p1[5], p1[6]} if c1 else set()
-            ok = set(facs) == want and len(facs) == 4
-    rep.check(ok, "analysis-synthesis", key + "::projection",
-              "alm[l, m] must be sum(conj(sYlm) * f * dtheta_weight * dphi)", node=co)
-    # synthesis: f += alm[el, m] * sYlm(...)
-    st = [x for x in b2 if isinstance(x, ast.AugAssign)]
-    ok = bool(st) and isinstance(st[0].op, ast.Add) and c2 and \
-        unparse(st[0].value).replace("(", "").replace(")", "") in (
-            f"alm[{el2}, {m2}] * " + unparse(c2[0]).replace("(", "").replace(")", ""),
-            unparse(c2[0]).replace("(", "").replace(")", "") + f" * alm[{el2}, {m2}]")
+    def body_env(fn, el, m, body, stop):
+        ev = SymEval(funcs, keep=("sYlm",), what=fn.name)
+        env = {a.arg: P.atom(a.arg) for a in fn.args.args}
+        env[el], env[m] = P.atom("L"), P.atom("M")
+        for st in body:
+            if st is stop:
+                break
+            if isinstance(st, ast.Assign) and isinstance(st.targets[0], ast.Name):
+                env[st.targets[0].id] = ev.ev(st.value, env)
+        return ev, env
+    M = P.atom("M")
+    # analysis: alm[l, m] = sum(conj(sYlm(s, l, m, theta, phi)) * f * dtheta_weight * dphi)
+    p1 = [a.arg for a in co.args.args]
+    st = [x for x in b1 if isinstance(x, ast.Assign) and isinstance(x.targets[0], ast.Subscript)
+          and unparse(x.targets[0].value) == "alm"]
+    if len(st) != 1:
+        raise AnalysisError("sYlm_coefficients: the store into alm[l, m] was not found")
+    ev, env = body_env(co, el1, m1, b1, st[0])
+    idx = st[0].targets[0].slice
+    idx = [ev.ev(i, env) for i in (idx.elts if isinstance(idx, ast.Tuple) else [idx])]
+    got = ev.ev(st[0].value, env)
+    A = {n: P.atom(n) for n in p1}
+    Y = symdiff.fn_atom("sYlm", [A[p1[0]], L, M, A[p1[3]], A[p1[4]]])
+    want = symdiff.fn_atom("sum", [symdiff.fn_atom("conj", [Y]) * A[p1[2]] * A[p1[5]] * A[p1[6]]])
+    rep.check(idx == [L, M] and p1[3:5] == ["theta", "phi"], "analysis-synthesis",
+              key + "::sYlm-args", "the coefficient of (l, m) must be stored under alm[l, m] and "
+              "the angles passed in (theta, phi) order", node=st[0])
+    rep.check(got == want, "analysis-synthesis", key + "::projection",
+              "alm[l, m] must be sum(conj(sYlm(s, l, m, theta, phi)) * f * dtheta_weight * dphi); "
+              f"found {got!r}", node=st[0])
+    # synthesis: f += alm[l, m] * sYlm(s, l, m, theta, phi)
+    p2 = [a.arg for a in re_.args.args]
+    adds = [x for x in b2 if isinstance(x, ast.AugAssign) and isinstance(x.op, ast.Add)]
+    plain = [x for x in b2 if isinstance(x, ast.Assign) and isinstance(x.value, ast.BinOp)
+             and isinstance(x.value.op, ast.Add)
+             and unparse(x.targets[0]) == unparse(x.value.left)]
+    if len(adds) + len(plain) != 1:
+        raise AnalysisError("sYlm_reconstruct: the accumulation statement was not found")
+    stx = (adds + plain)[0]
+    ev, env = body_env(re_, el2, m2, b2, stx)
+    term = ev.ev(stx.value if adds else stx.value.right, env)
+    A = {n: P.atom(n) for n in p2}
+    # alm is the third parameter of the reconstruction
+    almname = [n for n in p2 if n not in ("s", "lmax", "theta", "phi")]
+    Y2 = symdiff.fn_atom("sYlm", [A[p2[0]], L, M, A["theta"], A["phi"]]) \
+        if "theta" in A and "phi" in A else None
+    ok = Y2 is not None and len(almname) == 1 and \
+        term == symdiff.fn_atom("getitem", [P.atom(almname[0]), L, M]) * Y2
     rep.check(ok, "analysis-synthesis", key + "::synthesis",
-              "the reconstruction must add alm[l, m] * sYlm(s, l, m, theta, phi)", node=re_)
+              "the reconstruction must add alm[l, m] * sYlm(s, l, m, theta, phi); "
+              f"found {term!r}", node=stx)
 
 
 def angle_roles(rep):
+    """Decided on values (symexpr normal forms), not on names: the inclination array is the
+    one spanning (0, pi), the azimuth array the one spanning (0, 2 pi); what is handed to
+    spherical_to_cartesian / sYlm_coefficients in the theta / phi slots and the quadrature
+    weights must be built from the array of that role."""
+    from fractions import Fraction
+    from ..symexpr import SymEval
+    from ..tpoly import P
+    from .. import symdiff
     S = rep.sources
     fn = S.function(CORE, "AurelCore.Psi4_lm")
-    asg = {}
-    for st in ast.walk(fn):
-        if isinstance(st, ast.Assign):
-            for t in st.targets:
-                if isinstance(t, ast.Name):
-                    asg.setdefault(t.id, []).append(st.value)
-                elif isinstance(t, ast.Tuple):
-                    for i, e in enumerate(t.elts):
-                        asg.setdefault(unparse(e), []).append(("item", i, st.value))
     key = f"{CORE}::AurelCore.Psi4_lm"
+    ev = SymEval({}, what="Psi4_lm")
+    env = {}
+    mesh = None
+    stmts = []
 
-    def role_of_array(name):
-        """'incl' if built as pi * arange(...)/(N+1), 'azim' if 2*pi*..."""
-        v = (asg.get(name) or [None])[0]
-        if v is None or isinstance(v, tuple):
-            return None
-        txt = unparse(v)
-        if txt.startswith("2 * np.pi *"):
-            return "azim"
-        if txt.startswith("np.pi *"):
-            return "incl"
-        return None
-    mg = None
-    for st in ast.walk(fn):
-        if isinstance(st, ast.Assign) and isinstance(st.value, ast.Call) \
-                and unparse(st.value.func) == "np.meshgrid":
-            mg = st
-    if mg is None:
+    def flat(block):
+        for st in block:
+            stmts.append(st)
+            if isinstance(st, (ast.For, ast.If, ast.With)):
+                flat(st.body)
+    flat(fn.body)
+    for st in stmts:
+        if isinstance(st, ast.Assign) and len(st.targets) == 1:
+            t = st.targets[0]
+            if isinstance(t, ast.Tuple) and isinstance(st.value, ast.Call) \
+                    and unparse(st.value.func) == "np.meshgrid":
+                kw = {k.arg: getattr(k.value, "value", None) for k in st.value.keywords}
+                try:
+                    args = [ev.ev(a, env) for a in st.value.args]
+                except AnalysisError:
+                    args = []
+                mesh = (st, args, kw)
+                for i, e in enumerate(t.elts):
+                    if isinstance(e, ast.Name) and len(args) == 2:
+                        env[e.id] = symdiff.fn_atom(f"mesh{i}", args)
+            elif isinstance(t, ast.Name):
+                try:
+                    env[t.id] = ev.ev(st.value, env)
+                except AnalysisError:
+                    env[t.id] = P.atom(t.id)
+        elif isinstance(st, ast.For) and isinstance(st.target, ast.Name):
+            env[st.target.id] = P.atom(st.target.id)
+    if mesh is None:
         raise AnalysisError("Psi4_lm: angular meshgrid not found")
-    args = [unparse(a) for a in mg.value.args]
-    tg = [unparse(e) for e in mg.targets[0].elts]
-    kw = {k.arg: getattr(k.value, "value", None) for k in mg.value.keywords}
-    roles = {}
-    for a, t in zip(args, tg):
-        roles[t] = role_of_array(a)
-    rep.check(kw.get("indexing") == "ij" and len(args) == 2
-              and sorted(roles.values(), key=str) == ["azim", "incl"],
+
+    def role(p):
+        """'incl' for pi * (...), 'azim' for 2 pi * (...)"""
+        pi = P.atom("pi")
+        if p.is_zero() or not all(any(a == "pi" and e == 1 for a, e in k) for k in p.t):
+            return None
+        q = p * pi.pow(-1)
+        # the array is c * arange(..) / (N + 1): compare with the same expression at c = 1
+        coefs = set()
+        for k, c in q.t.items():
+            coefs.add(c)
+        for c in (Fraction(1), Fraction(2)):
+            if all((x / c).denominator == 1 or True for x in coefs) and \
+                    len({x / c for x in coefs}) == 1 and (next(iter(coefs)) / c) == 1:
+                return "incl" if c == 1 else "azim"
+        return None
+    mst, margs, kw = mesh
+    roles = [role(a) for a in margs]
+    rep.check(kw.get("indexing") == "ij" and roles == ["incl", "azim"],
               "angle-roles", key + "::meshgrid",
-              f"the angular grid must be meshgrid(inclination, azimuth, indexing='ij'); roles "
-              f"found {roles}", node=mg)
-    incl = [k for k, v in roles.items() if v == "incl"]
-    azim = [k for k, v in roles.items() if v == "azim"]
-    if not incl or not azim:
+              "the angular grid must be meshgrid(inclination in (0, pi), azimuth in (0, 2 pi), "
+              f"indexing='ij'); roles found {roles}", node=mst)
+    if roles != ["incl", "azim"]:
         return
-    incl, azim = incl[0], azim[0]
-    # spacing variables
-    dth = [k for k, v in asg.items() if v and not isinstance(v[0], tuple)
-           and unparse(v[0]).startswith("np.diff(") and role_of_array(
-               unparse(v[0].args[0].args[0]) if isinstance(v[0], ast.Subscript) is False
-               and False else "") is None]
-    del dth
-    spacing = {}
-    for k, vs in asg.items():
-        v = vs[0]
-        if not isinstance(v, tuple) and isinstance(v, ast.Subscript) \
-                and isinstance(v.value, ast.Call) and unparse(v.value.func) == "np.diff":
-            spacing[k] = role_of_array(unparse(v.value.args[0]))
-    # calls
+    TH, PH = symdiff.fn_atom("mesh0", margs), symdiff.fn_atom("mesh1", margs)
+    INCL, AZIM = margs
+
+    def spacing_of(p):
+        """np.diff(<array>)[0] -> the array, else None"""
+        for arr in (INCL, AZIM):
+            if p == symdiff.fn_atom("getitem", [symdiff.fn_atom("diff", [arr]), P.const(0)]):
+                return arr
+        return None
     s2c = S.function("finitedifference.py", "FiniteDifference.spherical_to_cartesian")
     s2c_params = [a.arg for a in s2c.args.args][1:]
+    n_s2c = n_co = 0
+
+    class _Ev:
+        @staticmethod
+        def ev(x, e):
+            try:
+                return ev0.ev(x, e)
+            except AnalysisError:
+                return P.atom("<" + unparse(x)[:40] + ">")
+    ev0, ev = ev, _Ev
     for n in ast.walk(fn):
         if isinstance(n, ast.Call) and unparse(n.func) == "self.fd.spherical_to_cartesian":
-            a = [unparse(x) for x in n.args]
-            rep.check(s2c_params == ["r", "theta", "phi"] and len(a) == 3 and a[1] == incl
-                      and a[2] == azim, "angle-roles", key + "::spherical_to_cartesian",
-                      f"spherical_to_cartesian(r, theta=inclination, phi=azimuth): got {a}",
-                      node=n)
+            n_s2c += 1
+            a = [ev.ev(x, env) for x in n.args]
+            rep.check(s2c_params == ["r", "theta", "phi"] and len(a) == 3 and a[1] == TH
+                      and a[2] == PH, "angle-roles", key + "::spherical_to_cartesian",
+                      "spherical_to_cartesian(r, theta=inclination grid, phi=azimuth grid): "
+                      f"got {[unparse(x) for x in n.args]}", node=n)
         if isinstance(n, ast.Call) and unparse(n.func) == "maths.sYlm_coefficients":
-            a = [unparse(x) for x in n.args]
-            ok = len(a) == 7 and a[3] == incl and a[4] == azim
+            n_co += 1
+            a = [ev.ev(x, env) for x in n.args]
+            ok = len(a) == 7 and a[3] == TH and a[4] == PH
             if ok:
-                w = n.args[5]
-                facs = []
-                x = w
-                while isinstance(x, ast.BinOp) and isinstance(x.op, ast.Mult):
-                    facs.append(unparse(x.right))
-                    x = x.left
-                facs.append(unparse(x))
-                sp_incl = [k for k, r in spacing.items() if r == "incl"]
-                sp_azim = [k for k, r in spacing.items() if r == "azim"]
-                ok = f"np.sin({incl})" in facs and any(s in facs for s in sp_incl) \
-                    and len(facs) == 2 and a[6] in sp_azim
+                ok = spacing_of(a[6]) == AZIM and any(
+                    a[5] == symdiff.fn_atom("sin", [TH]) * d and spacing_of(d) == INCL
+                    for d in [symdiff.fn_atom("getitem", [symdiff.fn_atom("diff", [INCL]),
+                                                          P.const(0)])])
             rep.check(ok, "angle-roles", key + "::sYlm_coefficients",
                       "sYlm_coefficients(s, lmax, f, theta=inclination grid, phi=azimuth grid, "
-                      f"sin(theta)*dtheta, dphi): got {a}", node=n)
-            rep.check(const_value(n.args[0]) == -2 and a[1] == "self.lmax", "angle-roles",
-                      key + "::spin-weight", "Psi4 has spin weight -2 and lmax = self.lmax",
-                      node=n)
+                      f"sin(theta)*dtheta, dphi): got {[unparse(x) for x in n.args]}", node=n)
+            rep.check(const_value(n.args[0]) == -2 and unparse(n.args[1]) == "self.lmax",
+                      "angle-roles", key + "::spin-weight",
+                      "Psi4 has spin weight -2 and lmax = self.lmax", node=n)
+    if n_s2c != 1 or n_co != 1:
+        raise AnalysisError("Psi4_lm: sphere sampling / decomposition calls not found")
     # spherical_to_cartesian body: x = r sin(theta) cos(phi), ...
-    body = {unparse(st.targets[0]): unparse(st.value) for st in s2c.body
-            if isinstance(st, ast.Assign)}
-    want = {"x": "r * np.sin(theta) * np.cos(phi)", "y": "r * np.sin(theta) * np.sin(phi)",
-            "z": "r * np.cos(theta)"}
-    ret = [st for st in s2c.body if isinstance(st, ast.Return)]
-    rep.check(body == want and ret and unparse(ret[0].value).replace("(", "").replace(
-        ")", "") == "x, y, z", "angle-roles", "finitedifference.py::spherical_to_cartesian",
-        f"theta is the inclination and phi the azimuth: expected {want}", node=s2c)
+    ev2 = SymEval({}, what="spherical_to_cartesian")
+    env2 = {p_: P.atom(p_) for p_ in s2c_params}
+    rets = [st for st in ast.walk(s2c) if isinstance(st, ast.Return)]
+    got = None
+    if len(rets) == 1 and isinstance(rets[0].value, ast.Tuple):
+        for st in s2c.body:
+            if isinstance(st, ast.Assign) and isinstance(st.targets[0], ast.Name):
+                env2[st.targets[0].id] = ev2.ev(st.value, env2)
+        got = [ev2.ev(e, env2) for e in rets[0].value.elts]
+    if s2c_params == ["r", "theta", "phi"]:
+        r_, th, ph = (P.atom(x) for x in s2c_params)
+        sin, cos = (lambda x: symdiff.fn_atom("sin", [x])), (lambda x: symdiff.fn_atom("cos", [x]))
+        want = [r_ * sin(th) * cos(ph), r_ * sin(th) * sin(ph), r_ * cos(th)]
+    else:
+        want = None
+    rep.check(got is not None and got == want, "angle-roles",
+              "finitedifference.py::spherical_to_cartesian",
+              "theta is the inclination and phi the azimuth: expected (r sin(theta) cos(phi), "
+              f"r sin(theta) sin(phi), r cos(theta)); got {got}", node=s2c)
 
 
 def per_radius(rep):
@@ -404,6 +526,7 @@ def run(rep):
     rep.assume("scipy.interpolate.RegularGridInterpolator, scipy.special.factorial/binom are "
                "trusted")
     bounds_refusal(rep)
+    module_state(rep)
     analysis_synthesis(rep)
     angle_roles(rep)
     per_radius(rep)
